@@ -11,7 +11,7 @@ use crate::{
         parser::ast::{BinaryOperator, UnaryOperator},
     },
     storage::tuple::Row,
-    types::{Blob, DataType, DataTypeKind, bool::Bool},
+    types::{Blob, DataType, DataTypeKind, Int64, UInt64, bool::Bool},
 };
 use std::{
     collections::HashSet,
@@ -26,6 +26,7 @@ pub enum EvaluationError {
     ColumnIndexOutOfBounds(usize, usize),
     TypeError(TypeSystemError),
     DivisionByZero,
+    IntegerOverflow,
 }
 
 impl Error for EvaluationError {}
@@ -43,6 +44,7 @@ impl Display for EvaluationError {
             ),
             Self::TypeError(err) => write!(f, "Type error: {err}"),
             Self::DivisionByZero => f.write_str("division by zero"),
+            Self::IntegerOverflow => f.write_str("integer overflow"),
         }
     }
 }
@@ -415,6 +417,42 @@ impl<'a> ExpressionEvaluator<'a> {
         Ok(())
     }
 
+    /// Integer (op) integer computed exactly and range-checked against the result type of the promotion
+    /// table (unsigned (op) unsigned is BigUInt, every other integer pair is BigInt). The primitive
+    /// operators panic on overflow in debug builds and wrap in release builds.
+    /// `None` if an operand is not an integer or the operator is not arithmetic.
+    fn integer_arith(
+        left: &DataType,
+        right: &DataType,
+        op: BinaryOperator,
+    ) -> Option<EvaluationResult<DataType>> {
+        let as_int = |v: &DataType| match v {
+            DataType::Int(i) => Some((i.0 as i128, false)),
+            DataType::BigInt(i) => Some((i.0 as i128, false)),
+            DataType::UInt(u) => Some((u.0 as i128, true)),
+            DataType::BigUInt(u) => Some((u.0 as i128, true)),
+            _ => None,
+        };
+        let (a, a_unsigned) = as_int(left)?;
+        let (b, b_unsigned) = as_int(right)?;
+        let exact = match op {
+            BinaryOperator::Plus => a.checked_add(b),
+            BinaryOperator::Minus => a.checked_sub(b),
+            BinaryOperator::Multiply => a.checked_mul(b),
+            BinaryOperator::Divide => a.checked_div(b),
+            BinaryOperator::Modulo => a.checked_rem(b),
+            _ => return None,
+        };
+        let result = exact.and_then(|v| {
+            if a_unsigned && b_unsigned {
+                u64::try_from(v).ok().map(|v| DataType::BigUInt(UInt64(v)))
+            } else {
+                i64::try_from(v).ok().map(|v| DataType::BigInt(Int64(v)))
+            }
+        });
+        Some(result.ok_or(EvaluationError::IntegerOverflow))
+    }
+
     fn eval_binary_op(
         &self,
         left: Vec<DataType>,
@@ -481,22 +519,33 @@ impl<'a> ExpressionEvaluator<'a> {
                 }
 
                 // Arithmetic operators use promoted operations (see the type system module for details)
-                BinaryOperator::Plus => {
-                    Ok(vec![left[0].add(&right[0]).map_err(EvaluationError::from)?])
-                }
-                BinaryOperator::Minus => {
-                    Ok(vec![left[0].sub(&right[0]).map_err(EvaluationError::from)?])
-                }
+                BinaryOperator::Plus => match Self::integer_arith(&left[0], &right[0], bin_op) {
+                    Some(result) => Ok(vec![result?]),
+                    None => Ok(vec![left[0].add(&right[0]).map_err(EvaluationError::from)?]),
+                },
+                BinaryOperator::Minus => match Self::integer_arith(&left[0], &right[0], bin_op) {
+                    Some(result) => Ok(vec![result?]),
+                    None => Ok(vec![left[0].sub(&right[0]).map_err(EvaluationError::from)?]),
+                },
                 BinaryOperator::Multiply => {
-                    Ok(vec![left[0].mul(&right[0]).map_err(EvaluationError::from)?])
+                    match Self::integer_arith(&left[0], &right[0], bin_op) {
+                        Some(result) => Ok(vec![result?]),
+                        None => Ok(vec![left[0].mul(&right[0]).map_err(EvaluationError::from)?]),
+                    }
                 }
                 BinaryOperator::Divide => {
                     Self::check_integer_divisor(&left[0], &right[0])?;
-                    Ok(vec![left[0].div(&right[0]).map_err(EvaluationError::from)?])
+                    match Self::integer_arith(&left[0], &right[0], bin_op) {
+                        Some(result) => Ok(vec![result?]),
+                        None => Ok(vec![left[0].div(&right[0]).map_err(EvaluationError::from)?]),
+                    }
                 }
                 BinaryOperator::Modulo => {
                     Self::check_integer_divisor(&left[0], &right[0])?;
-                    Ok(vec![left[0].rem(&right[0]).map_err(EvaluationError::from)?])
+                    match Self::integer_arith(&left[0], &right[0], bin_op) {
+                        Some(result) => Ok(vec![result?]),
+                        None => Ok(vec![left[0].rem(&right[0]).map_err(EvaluationError::from)?]),
+                    }
                 }
 
                 // String operators
@@ -550,8 +599,16 @@ impl<'a> ExpressionEvaluator<'a> {
                 )),
             },
             UnaryOperator::Minus => match operand {
-                DataType::BigInt(i) => Ok(DataType::BigInt((-i.0).into())),
-                DataType::Int(i) => Ok(DataType::Int((-i.0).into())),
+                DataType::BigInt(i) => Ok(DataType::BigInt(
+                    i.0.checked_neg()
+                        .ok_or(EvaluationError::IntegerOverflow)?
+                        .into(),
+                )),
+                DataType::Int(i) => Ok(DataType::Int(
+                    i.0.checked_neg()
+                        .ok_or(EvaluationError::IntegerOverflow)?
+                        .into(),
+                )),
                 DataType::Double(f) => Ok(DataType::Double((-f.0).into())),
                 DataType::Float(f) => Ok(DataType::Float((-f.0).into())),
                 _ => Err(EvaluationError::TypeError(
